@@ -1,8 +1,8 @@
 CONSTANTS Keys <- KeysC
           Known <- KnownC
-          Varies <- NoVaries
+          Varies <- OneVaries
           TableFollowsDialect = FALSE
-          MaxOps = 3
+          MaxOps = 1
 INIT CInit
 NEXT CNext
 INVARIANTS DisabledMeansOffOrUnset OverlayGivesDefaultsWhereUnset OverlayMatchesGroup ExplicitWinsInMerge UnknownKeysHarmless ClearKeepsKeysDropsValues JsonRoundTrip MergeOrderIrrelevantForDisjoint
